@@ -232,6 +232,10 @@ func (x *ctx) unknownCall(st *state, fr *frame, fnv val, args []val, c *ssa.Call
 				}
 				st.sig = append(st.sig, "iter:1")
 				res := []outcome{{st: skip}}
+				// iter(E) in a site clause inside the loop body: the value of E when this (arbitrary) iteration starts
+				snapIter := st.clone()
+				delete(snapIter.snaps, "iter")
+				st.snaps["iter"] = snapIter
 				for _, o := range x.callValue(st, fr, args[0], els, nil, types.Typ[types.Bool]) {
 					if o.panic {
 						res = append(res, o)
@@ -381,6 +385,35 @@ func (x *ctx) model(st *state, fr *frame, key string, callee *ssa.Function, args
 		x.store(st, args[0], args[1], types.Typ[types.UnsafePointer])
 		return x.ret1(st, val{}), true
 	}
+	if strings.HasSuffix(key, "internal/hashmap.NewWithSize") || strings.HasSuffix(key, "internal/hashmap.New") {
+		// A-table: a new table is a fresh object that holds no entry
+		x.assumed["A-table: internal/hashmap Get/Compute/Range/Size behave as an atomic per-key map (assumed, see DESIGN §4)"] = true
+		inst := callee
+		if x.lastInst != nil && x.lastInst.Origin() == callee {
+			inst = x.lastInst
+		}
+		targs := inst.TypeArgs()
+		if len(targs) < 3 {
+			x.fail("hashmap constructor: type arguments unknown at %s", key)
+		}
+		ks, _ := x.leafSort(targs[0])
+		m := x.freshTerm("table", sRef)
+		st.define(not(eq(m, null)))
+		x.assumeFreshRef(st, m)
+		name := x.tblName(targs[2])
+		gk := x.ghostKey(name)
+		hi, ok := x.hinfo[gk]
+		if !ok {
+			hi = heapInfo{elem: sRef, ksorts: []srtT{sRef, ks}}
+			x.hinfo[gk] = hi
+		}
+		cur := x.ghostArr(st, name, hi)
+		n := x.freshName("G_" + strings.TrimPrefix(name, "ghost_"))
+		x.declare(n, ghostSort(hi))
+		st.define(fmt.Sprintf("(= %s (store %s %s ((as const (Array %s %s)) %s)))", n, cur, m.s, ks.name, sRef.name, null.s))
+		st.heap[gk] = n
+		return x.ret1(st, scalar(m)), true
+	}
 	if strings.HasPrefix(key, "sync/atomic.") {
 		parts := strings.Split(strings.TrimPrefix(key, "sync/atomic."), ".")
 		if len(parts) != 2 {
@@ -415,6 +448,24 @@ func (x *ctx) model(st *state, fr *frame, key string, callee *ssa.Function, args
 		return nil, false
 	}
 	switch key {
+	case "strings.Builder.WriteString", "strings.Builder.String":
+		// the builder is one cell holding the content written so far; concatenation of concrete strings is computed,
+		// anything else yields an arbitrary string
+		sS := srtT{"Str", 0}
+		x.declareSort("Str")
+		l := x.recvLoc(st, args[0], callee.Signature.Recv().Type())
+		rd, wr := x.rw(st, l, sS)
+		if key == "strings.Builder.String" {
+			return x.ret1(st, scalar(rd())), true
+		}
+		cur, ok1 := concreteStr(rd())
+		add, ok2 := concreteStr(args[1].t)
+		if ok1 && ok2 {
+			wr(x.strConst(cur+add, sS))
+		} else {
+			wr(x.freshTerm("built", sS))
+		}
+		return x.ret1(st, val{agg: true, fields: []val{scalar(x.freshTerm("n", bvSort(64))), scalar(null)}}), true
 	case "sync.Mutex.Lock", "sync.RWMutex.Lock", "sync.RWMutex.RLock":
 		l := x.recvLoc(st, args[0], callee.Signature.Recv().Type())
 		_, wr := x.rw(st, l, sBool)
